@@ -48,7 +48,6 @@ VERIF_SIZE_T verif_b_size;      /* ghost: B's domain is [0, verif_b_size) */
 #endif
 
 #define CONTRACT_strided_at(self, c) \
-  __CPROVER_requires(__CPROVER_is_fresh(self, sizeof(*self))) \
   __CPROVER_requires(STRIDED_INV(self)) \
   __CPROVER_requires(STRIDED_IN_RANGE(self, c)) \
   __CPROVER_requires(verif_b_calls == 0) \
